@@ -3,6 +3,7 @@ import itertools
 from hypothesis import strategies as st
 from vlib.runner import Part, Violation
 from vlib import trace as T, refmodel as R, gen, judge
+from checks.common import hist_run
 
 ID = "C04"
 VARIANTS = ["plain"]
@@ -13,7 +14,8 @@ RULE = ("histories over OHx (on the thread's own or on a spare CPU)/OHp/OHr/OHc/
         "(ii-b) the same for two threads sharing ONE physical CPU (oversubscription must be refused), (iii) model-guided random walks on 1-3 threads (own physical CPU each), half with one injected "
         "illegal event or a missing end; oracle = reference FSM verdict vs ovniemu exit status, and for "
         "accepted histories thread.prv types 4/2/6 after every event time. Non-trivial = history contains "
-        "a pause/cool/warm; distinct = the history itself. Execute on a dead thread is excluded (left open).")
+        "a pause/cool/warm; distinct = the history itself. Execute on a dead thread is excluded (left open). "
+        "(iv) whole systems: 1-3 looms x 1-2 processes x 1-2 threads (TIDs may repeat between processes, PIDs between looms), threads of a loom time-share its CPUs; legal, one illegal event, or some threads (often a single one, in any loom) left unfinished.")
 ASSUMPTIONS = ["cross-stream clock ties are not generated (order unspecified)",
                "OHx on a dead thread is outside the quantified space"]
 
@@ -203,6 +205,25 @@ def walks(draw):
     return {"n": nth, "seq": ["%d%s" % (t, a) for t, a in seq]}
 
 
+PROF_SYS = gen.Profile(kinds=["state"] * 4 + ["noeffect"],
+                       models=[], max_looms=3, max_procs=2, max_threads=2, max_cpus=3,
+                       steps=(4, 40), lint=True, wild_kinds=["state", "state", "contend"],
+                       modes=("legal", "illegal", "noend", "noend"))
+
+
+def run_sys(case, ctx):
+    res = hist_run(case, ctx, only_types={4, 2, 6}, cpu=False)
+    if res.get("discard"):
+        return res
+    res["cls"].append("looms:%d" % len({s["loom"] for s in case["streams"]}))
+    pt = {}
+    for s in case["streams"]:
+        pt.setdefault((s["loom"], s["tid"]), set()).add(s["pid"])
+    if any(len(v) > 1 for v in pt.values()):
+        res["cls"].append("same-tid-in-two-processes-of-a-loom")
+    return res
+
+
 def parts(tier):
     q = tier == "quick"
     return [
@@ -216,5 +237,7 @@ def parts(tier):
         Part("two-threads-one-cpu-complete", run_seq, enum=enum_shared_complete(4 if q else 5),
              cap_s={"quick": 200, "thorough": 2400}),
         Part("random-walks", run_seq, strategy=lambda ctx: walks(),
+             budget={"quick": 4000, "thorough": 60000}),
+        Part("whole-systems", run_sys, strategy=lambda ctx: gen.history(PROF_SYS),
              budget={"quick": 4000, "thorough": 60000}),
     ]
